@@ -48,14 +48,19 @@ void run_test_in_its_own_process(TestSuite *suite, CgreenTest *test, TestReporte
         reporter->duration = cgreen_time_duration_in_milliseconds(test_starting_milliseconds,
                                                                       cgreen_time_get_current_milliseconds());
         if (WIFSIGNALED(status)) {
-            /* a C++ exception generates SIGABRT. Only print our special message for other signals. */
+            /* a C++ exception generates SIGABRT. Only print our special message for other signals.
+               Any signal gets a message though, that is how finish_test() knows that the test
+               was killed, which matters if that happened after its completion notification */
             const int sig = WTERMSIG(status);
+            char buf[128];
             if (sig != SIGABRT) {
-                char buf[128];
                 snprintf(buf, sizeof(buf), "Test terminated with signal: %s", (const char *)strsignal(sig));
-                (*reporter->finish_test)(reporter, test->filename, test->line, buf);
-                return;
+            } else {
+                snprintf(buf, sizeof(buf), "Test terminated unexpectedly, "
+                         "likely from a non-standard exception or Posix signal");
             }
+            (*reporter->finish_test)(reporter, test->filename, test->line, buf);
+            return;
         }
 
         (*reporter->finish_test)(reporter, test->filename, test->line, NULL);
